@@ -12,7 +12,7 @@ VARIABLES l, P, I, C, light
 tvars == <<l, P, I, C, light>>
 
 NoPlan == [kind |-> "none", i |-> 0, x |-> 0, ea |-> 0, ef |-> 0]
-C0 == [MSG |-> 65536, TAG |-> 16, R |-> 5, W |-> 2, CHUNK |-> 65520]
+C0 == [MSG |-> 65536, TAG |-> 16, R |-> 5, W |-> 2, CHUNK |-> 65519]
 
 TInit == /\ l = 1
          /\ C = C0
